@@ -70,8 +70,13 @@ def _contains_instance_attrs(
     if not all(is_method(x, class_name) for x in series.head(sample_size)):
         return False
 
+    # the sample above only rejects early: every element has to pass the class
+    # test, otherwise membership would depend on which rows come first
     try:
-        return all(all(hasattr(x, attr) for attr in attrs) for x in series)
+        return all(
+            is_method(x, class_name) and all(hasattr(x, attr) for attr in attrs)
+            for x in series
+        )
     except AttributeError:
         return False
 
